@@ -15,7 +15,8 @@ def ActionsWF (cx : Ctx) : Prop := ∀ i nd, cx.g[i]? = some nd → WrapWF cx i 
 
 /-- Grammars without such actions (every `wrap` is `none`) satisfy it. -/
 theorem actionsWF_of_plain (cx : Ctx) (h : ∀ env i nd, (cx.actOf env i nd).wrap = .none) : ActionsWF cx :=
-  fun i nd _ => ⟨fun _ => 0, fun env fam hc => by rw [h env i nd] at hc; exact absurd hc (by simp)⟩
+  fun i nd _ => ⟨fun _ => 0, fun env fam hc => by rw [h env i nd] at hc; exact absurd hc (by simp),
+    fun env fam mu hc => by rw [h env i nd] at hc; exact absurd hc (by simp)⟩
 
 /-- A context without action families. -/
 def plainCtx (g : Grammar) (inp : Array UInt8) : Ctx := { g := g, inp := inp }
@@ -30,9 +31,11 @@ theorem actOf_plainCtx (g : Grammar) (inp : Array UInt8) (env : Env) (i : Nat) (
 theorem actionsWF_plainCtx (g : Grammar) (inp : Array UInt8) (hg : ∀ nd ∈ g.toList, nd.act = {}) :
     ActionsWF (plainCtx g inp) := by
   intro i nd hnd
-  refine ⟨fun _ => 0, fun env fam hc => ?_⟩
-  rw [actOf_plainCtx g inp env i nd (hg nd (mem_toList_of_getElem? hnd))] at hc
-  exact absurd hc (by simp)
+  refine ⟨fun _ => 0, fun env fam hc => ?_, fun env fam mu hc => ?_⟩
+  · rw [actOf_plainCtx g inp env i nd (hg nd (mem_toList_of_getElem? hnd))] at hc
+    exact absurd hc (by simp)
+  · rw [actOf_plainCtx g inp env i nd (hg nd (mem_toList_of_getElem? hnd))] at hc
+    exact absurd hc (by simp)
 
 def nd (k : Kind) : Node := ⟨true, {}, k⟩
 
